@@ -108,7 +108,7 @@ pub enum ContentType {
     Unknown(u8, bool),
 }
 
-#[derive(Debug, Clone, Serialize, Deserialize)]
+#[derive(Debug, Clone, Serialize, Deserialize, PartialEq)]
 pub enum Api {
     Text,
     TextWith(u8),
@@ -429,6 +429,54 @@ identical result across segmentations and reader styles (all bodies), never Err.
                 );
             }
             results.push(got);
+        }
+        // cross-API: the one-shot helper and the streaming reader select and apply the charset in the same way, for every
+        // body (BOM-prefixed ones included)
+        let dual: Option<Api> = match &case.api {
+            Api::Text => Some(Api::TextReader { with: None, buf: 0 }),
+            Api::TextWith(e) => Some(Api::TextReader { with: Some(*e), buf: 4096 }),
+            Api::TextReader { with: None, .. } => Some(Api::Text),
+            Api::TextReader { with: Some(e), .. } => Some(Api::TextWith(*e)),
+            Api::TextUtf8 => None,
+        };
+        if let (Some(dual), Some(first)) = (dual, results.first()) {
+            let mut events = case.segs[0].split(&built.wire, &built.structural);
+            events.push(Ev::Eof);
+            let (_guard, _net) = serve_scripts(vec![events]);
+            let mut session = attohttpc::Session::new();
+            session.proxy_settings(no_proxy());
+            if let Some(e) = case.session_default {
+                session.default_charset(Some(enc_of(e)));
+            }
+            let mut rb = session.get(BASE_URL);
+            if let Some(x) = case.request_default {
+                rb = rb.default_charset(x.map(enc_of));
+            }
+            if let Ok(resp) = rb.send() {
+                let got: Result<String, String> = match &dual {
+                    Api::Text => resp.text().map_err(|e| format!("{e:?}")),
+                    Api::TextWith(e) => resp.text_with(enc_of(*e)).map_err(|e| format!("{e:?}")),
+                    Api::TextReader { with, .. } => {
+                        let mut r = match with {
+                            Some(e) => resp.text_reader_with(enc_of(*e)),
+                            None => resp.text_reader(),
+                        };
+                        let mut s = String::new();
+                        r.read_to_string(&mut s).map(|_| s).map_err(|e| format!("{e:?}"))
+                    }
+                    Api::TextUtf8 => unreachable!(),
+                };
+                match got {
+                    Ok(g) if &g == first => {}
+                    Ok(g) => {
+                        return Outcome::fail(
+                            "C18:helper-and-streaming-reader-disagree",
+                            format!("{:?} and {:?} decode the same body differently (bom={bom}): {} vs {} chars", case.api, dual, first.chars().count(), g.chars().count()),
+                        )
+                    }
+                    Err(e) => return Outcome::fail("C18:decode-error", format!("{dual:?}: {e}")),
+                }
+            }
         }
         if results.windows(2).any(|w| w[0] != w[1]) {
             return Outcome::fail("C18:segmentation-dependent", format!("decoded text differs between segmentations (bom={bom})"));
